@@ -178,10 +178,16 @@ fn fn_of(owner: Option<String>, sig: &syn::Signature, public: bool) -> OFn {
 }
 
 pub fn scan(output: &str) -> Result<Scan, String> {
-    let f = syn::parse_file(output).map_err(|e| format!("{e} at line {}", e.span().start().line))?;
-    let mut s = Scan::default();
-    walk(&f.items, &mut vec![], &mut s);
-    Ok(s)
+    let parsed = syn::parse_file(output).map_err(|e| format!("{e} at line {}", e.span().start().line));
+    let result = parsed.map(|f| {
+        let mut s = Scan::default();
+        walk(&f.items, &mut vec![], &mut s);
+        s
+    });
+    // proc-macro2 (span-locations) keeps every parsed text in a per-thread source map with 32-bit
+    // positions: a run that scans gigabytes of output has to release it (no span outlives this call)
+    proc_macro2::extra::invalidate_current_thread_spans();
+    result
 }
 
 impl Scan {
